@@ -91,6 +91,15 @@ class STuple(SV):
         return 'STuple(%r)' % (self.items,)
 
 
+class SFile(SV):
+    """ghost file object returned by the model of open(): only its path matters"""
+    __slots__ = ('path', 'mode')
+
+    def __init__(self, path, mode):
+        self.path = path
+        self.mode = mode
+
+
 class SList(SV):
     """List with a concrete shape created by the code under execution."""
     __slots__ = ('items',)
@@ -578,7 +587,10 @@ class Path:
 
     def heap_arr(self, attr):
         if attr not in self.heap:
-            self.heap[attr] = z3.Const('H0_' + attr, z3.ArraySort(z3.IntSort(), vals.VS))
+            # an attribute first touched after a havoc point (yield) starts from the state of that point
+            frame = set(getattr(self.engine, 'yield_frame', None) or ())
+            gen = 0 if attr in frame else getattr(self, 'havoc_gen', 0)
+            self.heap[attr] = z3.Const('H%d_%s' % (gen, attr), z3.ArraySort(z3.IntSort(), vals.VS))
         return self.heap[attr]
 
     def alloc(self, cls_id_term):
@@ -1146,6 +1158,20 @@ class Engine:
         for st in stmts:
             self.exec_stmt(st, fr)
 
+    def st_With(self, st, fr):
+        """`with open(path, mode) as f:` only: the file object is a ghost value whose write() is recorded"""
+        if len(st.items) != 1:
+            self.unsupported(st, 'with statement with several items')
+        item = st.items[0]
+        cm = self.eval(item.context_expr, fr)
+        if not isinstance(cm, SFile):
+            self.unsupported(st, 'with statement over %r' % (type(cm).__name__,))
+        if item.optional_vars is not None:
+            if not isinstance(item.optional_vars, ast.Name):
+                self.unsupported(st, 'with ... as <pattern>')
+            fr.locals[item.optional_vars.id] = cm
+        self.exec_block(st.body, fr)
+
     def exec_stmt(self, st, fr):
         m = getattr(self, 'st_' + type(st).__name__, None)
         if m is None:
@@ -1156,6 +1182,22 @@ class Engine:
         if isinstance(st.value, ast.Constant):
             return      # docstring
         v = st.value
+        if isinstance(v, ast.Yield) and v.value is None:
+            # a bare `yield` of a generator-based context manager: control goes to the body of the caller's
+            # `with` block and (on normal completion of that body) comes back here.  Recorded in the ghost
+            # trace; the body of the with block is outside the function under contract.
+            self.path.trace.append(('yield',))
+            self.assumptions.add('context-manager protocol: the code after `yield` runs after the with-body completed normally')
+            # the with-body is arbitrary caller code: every object attribute may have changed, except those the
+            # contract declares stable (`yield_frame`)
+            frame = set(getattr(self, 'yield_frame', None) or ())
+            self.path.nhavoc = getattr(self.path, 'nhavoc', 0) + 1
+            for attr in list(self.path.heap):
+                if attr not in frame:
+                    self.path.heap[attr] = z3.Const('H%d_%s' % (self.path.nhavoc, attr),
+                                                    z3.ArraySort(z3.IntSort(), vals.VS))
+            self.path.havoc_gen = self.path.nhavoc
+            return
         if isinstance(v, ast.Call) and isinstance(v.func, ast.Attribute) and v.func.attr == 'append' \
                 and isinstance(v.func.value, ast.Attribute) and len(v.args) == 1 and not v.keywords:
             owner = self.eval(v.func.value.value, fr)
@@ -1632,6 +1674,14 @@ class Engine:
             if f.defcls is None or fnode_self is None:
                 self.unsupported(node, 'super() outside a method')
             return SSuper(f.defcls, fnode_self)
+        if (isinstance(node.func, ast.Attribute) and node.func.attr in ('info', 'debug', 'warning', 'error')
+                and isinstance(node.func.value, ast.Attribute) and node.func.value.attr == 'logger'):
+            # <obj>.logger.<level>(...): logging; the arguments are evaluated, the call has no effect the
+            # contracts talk about
+            for a in node.args:
+                self.eval_arg(a, fr)
+            self.assumptions.add('calls on <obj>.logger.<level>(...) are logging only (no effect, do not raise)')
+            return C(None)
         f = self.eval(node.func, fr)
         args = []
         for a in node.args:
@@ -2244,6 +2294,8 @@ def _spec_uf(self, fn, args, kwargs):
             self.axiom(Val.is_VDict(app))
         elif rk == 'list':
             self.axiom(Val.is_VList(app))
+        elif rk == 'str':
+            self.axiom(Val.is_VStr(app))
     fk = getattr(fn, '_facts', None)
     if fk is not None and not getattr(self, '_in_facts', False):
         # a lemma about the function (proved separately, see lemmas/): instantiated here
